@@ -382,6 +382,7 @@ func (m *MemoryInstance) Wait32(offset uint32, exp uint32, timeout int64, reader
 
 	cur := reader(m, offset)
 	if cur != exp {
+		verifWait("notequal", m, nil, 0)
 		w.mux.Unlock()
 		return 1
 	}
@@ -396,6 +397,7 @@ func (m *MemoryInstance) Wait64(offset uint32, exp uint64, timeout int64, reader
 
 	cur := reader(m, offset)
 	if cur != exp {
+		verifWait("notequal", m, nil, 0)
 		w.mux.Unlock()
 		return 1
 	}
@@ -419,20 +421,25 @@ func (m *MemoryInstance) wait(w *waiters, timeout int64) uint64 {
 
 	ready := make(chan struct{})
 	elem := w.l.PushBack(ready)
+	verifWait("enqueue", m, ready, 0)
 	w.mux.Unlock()
 
 	if timeout < 0 {
 		<-ready
+		verifWait("woken", m, ready, 0)
 		return 0
 	} else {
 		select {
 		case <-ready:
+			verifWait("woken", m, ready, 0)
 			return 0
 		case <-time.After(time.Duration(timeout)):
+			verifWait("timeout-fired", m, ready, 0)
 			// While we could see if the channel completed by now and ignore the timeout, similar to x/sync/semaphore,
 			// the Wasm spec doesn't specify this behavior, so we keep things simple by prioritizing the timeout.
 			w.mux.Lock()
 			w.l.Remove(elem)
+			verifWait("timeout-removed", m, ready, 0)
 			w.mux.Unlock()
 			return 2
 		}
@@ -468,9 +475,11 @@ func (m *MemoryInstance) Notify(offset uint32, count uint32) uint32 {
 	res := uint32(0)
 	for num := w.l.Len(); num > 0 && res < count; num = w.l.Len() {
 		w := w.l.Remove(w.l.Front()).(chan struct{})
+		verifWait("notify-one", m, w, 0)
 		close(w)
 		res++
 	}
+	verifWait("notify", m, nil, res)
 
 	return res
 }
